@@ -26,9 +26,11 @@ type SpecEnv struct {
 	pkg     *types.Package
 	resolve func(name string) (TV, bool)
 	oldResolve func(name string) (TV, bool)
+	resolveRet func(site string) (TV, bool)
 	hyp     bool // evaluating a hypothesis (affects nothing semantically; used for diagnostics)
 	depth   int
 	transparent bool // reveal every opaque spec function (used when proving lemmas)
+	bound   []string // SMT names of the variables bound by enclosing quantifiers
 }
 
 func (env *SpecEnv) with(name string, tv TV) *SpecEnv {
@@ -782,7 +784,10 @@ func (env *SpecEnv) evalQuant(e *Expr) TV {
 		binds = append(binds, fmt.Sprintf("(%s %s)", name, ls[0].Sort))
 		ts := []string{name}
 		n = n.with(b.Name, TV{unflatten(t, &ts), t})
+		n.bound = append(append([]string(nil), n.bound...), name)
+		env.fc.boundNames = append(env.fc.boundNames, name)
 	}
+	defer func(k int) { env.fc.boundNames = env.fc.boundNames[:k] }(len(env.fc.boundNames) - len(e.Vars))
 	body := n.evalBool(e.X[0])
 	if len(e.Trig) > 0 {
 		var pats []string
@@ -821,6 +826,10 @@ func (env *SpecEnv) evalCall(e *Expr) TV {
 		}
 		return env.convert(env.eval(args[0]), t)
 	}
+	if callee.K == "sel" && callee.X[0].K == "id" && fc.eng.cs.Specs[callee.Name] != nil && env.lookupPkg(callee.X[0].Name) != nil {
+		// package-qualified spec function: spec functions live in one global namespace
+		callee = &Expr{K: "id", Name: callee.Name}
+	}
 	if callee.K == "id" {
 		switch callee.Name {
 		case "old":
@@ -833,6 +842,15 @@ func (env *SpecEnv) evalCall(e *Expr) TV {
 				oe.resolve = env.oldResolve
 			}
 			return oe.eval(args[0])
+		case "ret":
+			if env.resolveRet == nil || len(args) != 1 || args[0].K != "id" {
+				sfail("ret(callee#k) is only available in assert clauses")
+			}
+			tv, ok := env.resolveRet(args[0].Name)
+			if !ok {
+				sfail("ret(%s): no such call site executed before this point", args[0].Name)
+			}
+			return tv
 		case "len", "cap":
 			x := env.eval(args[0])
 			switch s := x.V.(type) {
@@ -1042,6 +1060,13 @@ func (fc *FnCtx) opaqueApp(env *SpecEnv, sf *SpecFn, argv []TV, rt types.Type) T
 	term := app(sym, flat...)
 	if len(flat) == 0 {
 		term = sym
+	}
+	for _, bv := range fc.boundNames {
+		if strings.Contains(term, bv) {
+			// under a quantifier: the application mentions a bound variable and cannot be named
+			ts := []string{term}
+			return TV{unflatten(rt, &ts), rt}
+		}
 	}
 	key := term
 	for _, a := range fc.smt.apps[sf.Name] {
